@@ -54,6 +54,7 @@ def loss(y, p):
 
 
 _RIVER = {}
+_EMPTY = {}       # (no dict is allocated between two deliveries: freed observation dicts may be re-used by CPython)
 
 
 def river_model():
@@ -188,21 +189,27 @@ def _run_cell_once(cfg, seeds, prehist, skind, n_obs, delivery='copy'):
             GeometricReservoirStorage(size=3, store_targets=True, constant_probability=0.6)
         ex = BatchSage(model, names, loss, n_inner_samples=cfg['n'], storage=storage)
     digests = []
-    give = (lambda x: dict(x)) if delivery == 'copy' else (lambda x: x)
+    # {**x}: a dict display takes its object from CPython's free list, i.e. very likely the address of the temporary
+    # freed last (dict(x) allocates afresh) - the delivery in which a stale id() is most likely to collide
+    give = (lambda x: {**x}) if delivery == 'copy' else (lambda x: x)
     if e in ('batch', 'batch-original'):
-        data = data[:12]
+        data = data[:16 if cfg.get('reservoir') else 12]
+    # bounded reservoir: every update_storage is directly followed by an explain_one, so that an observation the
+    # reservoir rejected (and CPython freed) is followed by a fresh temporary at the same address
+    every = 2 if cfg.get('reservoir') else 4
     for t, (x, y) in enumerate(data):
         if e == 'batch':
-            vals = ex.explain_one(give(x), y, verbose=False) if t % 4 == 3 else (ex.update_storage(give(x), y) or {})
+            vals = ex.explain_one(give(x), y, verbose=False) if t % every == every - 1 else \
+                (ex.update_storage(give(x), y) or _EMPTY)
         elif e == 'batch-original':
-            vals = ex.explain_one(give(x), y, original_sage=True, verbose=False) if t % 4 == 3 else \
-                (ex.update_storage(give(x), y) or {})
+            vals = ex.explain_one(give(x), y, original_sage=True, verbose=False) if t % every == every - 1 else \
+                (ex.update_storage(give(x), y) or _EMPTY)
         elif e == 'interval':
             vals = ex.explain_one(give(x), y, verbose=False)
         else:
             vals = ex.explain_one(give(x), y)
         st_obj = storage if storage is not None else getattr(ex, '_storage', None)   # library default: private, optional
-        img = (sorted((str(k), hx(v)) for k, v in dict(vals).items()), storage_image(st_obj) if st_obj is not None else None)
+        img = (sorted((str(k), hx(v)) for k, v in vals.items()), storage_image(st_obj) if st_obj is not None else None)
         digests.append(hashlib.sha1(repr(img).encode()).hexdigest()[:16])
     return digests
 
